@@ -600,6 +600,11 @@ func (e *Env) load(f *Fam, in Input) {
 		for _, r := range rows {
 			var cols []string
 			var args []interface{}
+			if f.joinTableOf(m) == "" && schemaOf(e.db, f.Mod[m]).LookUpField("Lbl") != nil {
+				if _, has := r.F["Lbl"]; !has && r.F["UID"].I != nil && *r.F["UID"].I%2 == 0 {
+					r.F["Lbl"] = VS(fmt.Sprint("l", *r.F["UID"].I)) // odd uids keep the leading column NULL
+				}
+			}
 			if _, ok := f.Mod["U"]; ok && m == "P" {
 				if _, has := r.F["Code"]; !has {
 					r.F["Code"] = VS(fmt.Sprint("code-", *r.F["UID"].I))
